@@ -2,3 +2,4 @@
 //! The same encoding is defined independently in Coq (coq/theories/Judge/Dump.v).
 pub mod encode;
 pub mod encode_ast;
+pub mod encode_table;
